@@ -12,7 +12,7 @@ fn load_cases(path: &str) -> Vec<Value> {
 }
 
 fn main() {
-    std::panic::set_hook(Box::new(|_| {}));
+    if std::env::var("VH_DEBUG").is_err() { std::panic::set_hook(Box::new(|_| {})); }
     let args: Vec<String> = std::env::args().collect();
     if args.len() < 3 { usage() }
     match (args[1].as_str(), args[2].as_str()) {
@@ -179,6 +179,26 @@ fn main() {
             }
             let samples: Vec<&Value> = cases.iter().step_by((cases.len() / 3).max(1)).take(3).collect();
             println!("{}", json!({"cases": cases.len(), "prop_mismatch": nprop, "model_drift": 0, "prop": prop, "model": [], "samples": samples, "counts": {"conversions_compared": runs}}));
+        }
+        ("fragments", _) => {
+            let rows = vh::syntargets::fragment_table();
+            let mut f = std::io::BufWriter::new(std::fs::File::create(&args[2]).unwrap());
+            for r in &rows { writeln!(f, "{}", r).unwrap(); }
+            println!("{}", json!({"fragments": rows.len()}));
+        }
+        ("replay", "syntargets") => {
+            let cases = load_cases(&args[3]);
+            let mut prop: Vec<Value> = vec![];
+            let mut nprop = 0usize;
+            let mut samples: Vec<Value> = vec![];
+            for (i, c) in cases.iter().enumerate() {
+                let (o, tag) = vh::syntargets::replay_one(c);
+                if i % (cases.len() / 3).max(1) == 0 && samples.len() < 3 { samples.push(json!({"case": tag, "expect": c["expect"]})); }
+                if !o.prop.is_empty() { nprop += 1; if prop.len() < 40 { prop.push(json!({"case": c, "why": o.prop, "key": format!("syntargets:{}", tag)})); } }
+            }
+            let (xw, xn) = vh::syntargets::extras();
+            for w in xw.iter().take(20) { nprop += 1; prop.push(json!({"case": {"extra": w}, "why": [w], "key": format!("syntargets-extra:{}", w)})); }
+            println!("{}", json!({"cases": cases.len() as u64 + xn, "prop_mismatch": nprop, "model_drift": 0, "prop": prop, "model": [], "samples": samples, "counts": {"helper_and_collection_cases": xn}}));
         }
         ("record", "accum") => {
             let seed: u64 = args[3].parse().unwrap();
